@@ -21,7 +21,12 @@ pub enum Hidden {
     Natural,
     /// explicit fourth-lane content injected through public route `route`
     Poison { bits: u32, route: u8 },
+    /// a different content (and route) for every hidden-lane value drawn in the call, so that operands of one
+    /// operation differ in their hidden lanes
+    Mixed { start: u32 },
 }
+
+pub const POISON_BITS: [u32; 10] = [0x0000_0000, 0x3f80_0000, 0xbf80_0000, 0x7f61_b1e6, 0x0000_0001, 0x7f80_0000, 0xff80_0000, 0x7fc0_0001, 0x7fa0_0055, 0xffff_ffff];
 
 pub struct Src {
     pub rng: Rng,
@@ -39,16 +44,28 @@ pub struct Src {
     pub perturb: Option<Rng>,
     /// largest finite |scalar| drawn so far (magnitude scale of the call's inputs)
     pub max_abs: f64,
+    pub hidden_draws: u32,
 }
 
 impl Src {
     pub fn new(seed: u64, mode: Mode) -> Src {
-        Src { rng: Rng::new(seed), mode, hot: None, slot: 0, hidden: Hidden::Natural, pool: HashMap::new(), pool_prob: 0.0, buf_len: 16, index_range: 2, log: vec![], keep_log: false, perturb: None, max_abs: 0.0 }
+        Src { rng: Rng::new(seed), mode, hot: None, slot: 0, hidden: Hidden::Natural, pool: HashMap::new(), pool_prob: 0.0, buf_len: 16, index_range: 2, log: vec![], keep_log: false, perturb: None, max_abs: 0.0, hidden_draws: 0 }
     }
     pub fn reseed(&mut self, seed: u64) {
         self.rng = Rng::new(seed);
         self.slot = 0;
         self.log.clear();
+    }
+    /// the hidden-lane policy for the next padded value drawn
+    pub fn next_hidden(&mut self) -> Hidden {
+        match self.hidden {
+            Hidden::Mixed { start } => {
+                let k = start.wrapping_add(self.hidden_draws);
+                self.hidden_draws += 1;
+                Hidden::Poison { bits: POISON_BITS[(k % 10) as usize], route: ((k / 10 + k) % 3) as u8 }
+            }
+            h => h,
+        }
     }
     pub fn coin(&mut self) -> bool {
         self.rng.bool()
@@ -334,6 +351,7 @@ val_vec!(DQuat, f64, 4);
 /// Vec3A with the hidden-lane policy of the source.
 pub fn make_vec3a(l: [f32; 3], h: Hidden) -> Vec3A {
     match h {
+        Hidden::Mixed { .. } => unreachable!(),
         Hidden::Natural => Vec3A::from_array(l),
         #[cfg(feature = "scalar-math")]
         Hidden::Poison { .. } => Vec3A::from_array(l),
@@ -370,7 +388,8 @@ impl Draw for Vec3A {
             return v;
         }
         let a: [f32; 3] = core::array::from_fn(|_| f32::draw(s));
-        make_vec3a(a, s.hidden)
+        let h = s.next_hidden();
+        make_vec3a(a, h)
     }
 }
 impl Cap for Vec3A {
@@ -456,7 +475,8 @@ val_mask!(BVec4A, 4, [0, 1, 2, 3]);
 impl Draw for BVec3A {
     fn draw(s: &mut Src) -> Self {
         let b: [bool; 3] = core::array::from_fn(|_| s.rng.bool());
-        match s.hidden {
+        match s.next_hidden() {
+            Hidden::Mixed { .. } => unreachable!(),
             Hidden::Natural => BVec3A::new(b[0], b[1], b[2]),
             Hidden::Poison { bits, .. } => {
                 // a mask produced by comparing vectors whose hidden lanes are equal (true) or not (false / NaN)
